@@ -260,6 +260,12 @@ func (ev *Eval) fdotTerms(as, bs []Sc) Sc {
 		}
 		if math.Abs(float64(bitsf32(acc.B))) < mag*1e-3 {
 			acc.Ind = true
+		} else {
+			terms := make([]float64, len(as))
+			for i := range as {
+				terms[i] = float64(bitsf32(as[i].B)) * float64(bitsf32(bs[i].B))
+			}
+			acc.Tol, acc.Ind = cancelTol(float64(bitsf32(acc.B)), uint16(4*len(as)), terms...)
 		}
 	}
 	return acc
